@@ -2,6 +2,7 @@ package main
 
 import (
 	"fmt"
+	"io"
 	"math/big"
 
 	"github.com/tuneinsight/lattigo/v6/core/rlwe"
@@ -33,7 +34,7 @@ func coverCfg(c *engine.Chooser, params rlwe.Parameters, k cfg) {
 //	N parties:     e is a sum of N errors (<= N*B), s a sum of N ternary keys (<= N): every term is at
 //	               most N x its single-party bound.
 func cpkEncryptBound(params rlwe.Parameters, parties int) *big.Int {
-	N := int64(params.N())
+	N := mp.RingFactor(params) // terms per coefficient of a product in the ring
 	B := mp.XeSup(params.Xe()).Int64()
 	single := N*B + B + N*B
 	if params.PCount() > 0 {
@@ -48,15 +49,17 @@ func cpkLeaf(c *engine.Chooser, name string, k cfg) {
 	uni.Seed(c, name, "setup")
 	P := mp.NewParties(params, k.n)
 
-	// every party has its own protocol instance and reads its own copy of the CRS
-	protos := make([]multiparty.PublicKeyGenProtocol, k.n)
+	// every party has its own protocol instance (how it was obtained is an axis) and reads its own copy of the CRS
+	inst, hist := axes(c)
+	protos := mp.Instances(inst, k.n, func() multiparty.PublicKeyGenProtocol { return multiparty.NewPublicKeyGenProtocol(params) },
+		func(p multiparty.PublicKeyGenProtocol) multiparty.PublicKeyGenProtocol { return p.ShallowCopy() })
 	crps := make([]multiparty.PublicKeyGenCRP, k.n)
 	shares := make([]multiparty.PublicKeyGenShare, k.n)
 	for i := range protos {
-		if i == 0 {
-			protos[i] = multiparty.NewPublicKeyGenProtocol(params)
-		} else {
-			protos[i] = protos[0].ShallowCopy()
+		if hist > 0 { // the instance already served another run (other key, other output)
+			scratch := protos[i].AllocateShare()
+			protos[i].GenShare(P.SK[(i+1)%k.n], protos[i].SampleCRP(mp.CRS(1-k.crs)), &scratch)
+			protos[i].AggregateShares(scratch, scratch, &scratch)
 		}
 		crps[i] = protos[i].SampleCRP(mp.CRS(k.crs))
 		shares[i] = protos[i].AllocateShare()
@@ -87,6 +90,9 @@ func cpkLeaf(c *engine.Chooser, name string, k cfg) {
 			}
 			err = r.UnmarshalBinary(data)
 			return
+		},
+		Stream: func(a multiparty.PublicKeyGenShare, wrap func(io.Reader) io.Reader) (multiparty.PublicKeyGenShare, error) {
+			return mp.StreamHop[multiparty.PublicKeyGenShare](a, wrap)
 		},
 		Flat: flat,
 	}
@@ -122,6 +128,16 @@ func cpkLeaf(c *engine.Chooser, name string, k cfg) {
 		}
 		c.Cover("functional", "cpk-encrypt")
 	}
+}
+
+// axes takes the two per-leaf axes every key protocol shares (non-free choices: each costs one deviation):
+// how the parties' protocol objects were obtained, and whether they already served another run.
+func axes(c *engine.Chooser) (inst, hist int) {
+	inst = c.Choose(3, "instances")
+	hist = c.Choose(3, "history")
+	c.Cover("instances", mp.InstanceNames[inst])
+	c.Cover("history", [...]string{"first-use", "after-run-at-lower-shape", "after-run-at-other-shape"}[hist])
+	return
 }
 
 // levels returns {0, max} (deduplicated).
